@@ -124,7 +124,10 @@ def cases(tier):
                     replay_kind="c13_table", assumptions=ASSUME))
   for m, c in LAYER_CLASSES:
     for vname, variant in (("bias", {}), ("nobias", {"use_bias": False}), ("act", {"activation": "ACT"}),
-                           ("noquant", {"__all_quantizers__": None})):
+                           ("noquant", {"__all_quantizers__": None}), ("mask31", {"mask": "MASK31"}), ("mask13", {"mask": "MASK13"}),
+                           ("mask33", {"mask": "MASK33"})):
+      if vname.startswith("mask") and c != "QConv2D":
+        continue
       if vname == "noquant" and c in ("QActivation", "QAdaptiveActivation"):
         continue
       if vname == "act" and c in ("QActivation", "QAdaptiveActivation", "QAveragePooling2D", "QGlobalAveragePooling2D",
@@ -160,7 +163,10 @@ def norm(v):
 
 
 def same_val(a, b, depth=0):
+  import numpy as _np
   a, b = norm(a), norm(b)
+  if isinstance(a, _np.ndarray) or isinstance(b, _np.ndarray):
+    return isinstance(a, _np.ndarray) and isinstance(b, _np.ndarray) and a.shape == b.shape and bool(_np.array_equal(a, b))
   if isinstance(a, Obj) or isinstance(b, Obj):
     if a is b:
       return True
@@ -231,7 +237,11 @@ def layer_scenario(modname, clsname, variant):
     for p in params:
       if p in variant:
         kw[p] = variant[p]
-        if kw[p] == "ACT":
+        if isinstance(kw[p], str) and kw[p].startswith("MASK"):
+          import numpy as _np
+          kw[p] = {"MASK31": _np.array([[1.0], [0.0], [1.0]]), "MASK13": _np.array([[1.0, 0.0, 1.0]]),
+                   "MASK33": _np.array([[1.0, 0.0, 1.0], [0.0, 1.0, 0.0], [1.0, 1.0, 0.0]])}[kw[p]]
+        if isinstance(kw[p], str) and kw[p] == "ACT":
           kw[p] = Obj(ExtClass("quantizer"), {"name": "q_activation"}, label="q_activation")
       elif p in CONCRETE:
         kw[p] = CONCRETE[p]
